@@ -37,3 +37,5 @@ def run(ctx):
     derives(ctx, POLY, 'Poly', POLY, 'SubPoly')
     ctx.check('Poly overrides only __getitem__', plain_methods(ctx, POLY, 'Poly') == ['__getitem__'],
               'Poly defines %s' % plain_methods(ctx, POLY, 'Poly'), POLY)
+
+    dependencies(ctx, ['crysp/bits.py', 'crysp/poly.py'], 'C16')
